@@ -222,6 +222,29 @@ pub fn check_value_full(bits: u32, x: u128) -> Result<(), Violation> {
 			}
 		}
 	}
+	// what follows the canonical form — and how much of it — never matters: same result for trailing lengths
+	// around every power of 256 a length-derived guard could truncate at
+	if x <= max_of(bits) {
+		let mut long = vec![0xA5u8; n + 65_552];
+		long[..n].copy_from_slice(expect);
+		for extra in (0..=20usize).chain(236..=276).chain(492..=532).chain(65_516..=65_552) {
+			let s = &long[..n + extra];
+			let got = guard(|| real_dec(bits, s)).map_err(|p| {
+				Violation::new(format!("C04/panic/decode/u{bits}"), format!("Compact<u{bits}> decode of {} + {extra} trailing bytes panicked: {p}", hex(expect)))
+			})?;
+			if got != Some((x, n)) {
+				return Err(Violation::new(
+					format!("C04/trailing-length/u{bits}"),
+					format!(
+						"value {x} (canonical {}) followed by {extra} trailing bytes decoded as Compact<u{bits}>: got {:?}, expected {:?}",
+						hex(expect),
+						got,
+						Some((x, n))
+					),
+				));
+			}
+		}
+	}
 	Ok(())
 }
 
